@@ -42,7 +42,9 @@ def run(ctx, rep):
         "written to the stream is dominated by a comparison bounding the length "
         "by the narrow type's maximum; REJECTDOM: the set of reader-side "
         "rejections in MetadataDecoder that compare with a constant or rest on a "
-        "non-stream callee is closed and each has a writer-side counterpart")
+        "non-stream callee is closed and each has a writer-side counterpart; "
+        "G1JUSTIFY: an input-relative count rejection `count > remaining/k` is "
+        "backed by >= k bytes consumed per item in every loop it dominates")
     rep.not_decided += ["byte-exactness of values, preservation of nesting and order (value-level)",
                         "equality of writer/reader wire formats beyond the length-field domains"]
     rep.trusted_base += ["clang 14 AST/CFG", "dfacts", "rules/c11.json"]
@@ -182,6 +184,9 @@ def run(ctx, rep):
     for key in listed:
         if key not in found:
             rep.note("stale REJECTDOM table entry (rejection no longer present): %s" % (key,))
+    # input-relative rejections must match what an entry / sub-metadata costs
+    from .C01 import g1justify
+    g1justify(ctx, rep, only_class=dec_cls, floor=2)
     rep.add(Obligation("REJECTDOM", dec_cls, "inventory closed", "-", DISCHARGED,
                        detail="%d non-input-relative rejections found in %s, all listed with their "
                               "writer-side counterpart" % (len(found), dec_cls), trivial=True))
